@@ -530,6 +530,15 @@ class SCFG(Sized):
         basic_block: BasicBlock
             The basic_block parameter represents the block to be added.
         """
+        # The name (and control variables) of a block that is added from
+        # outside may be of the kind the name generator hands out; such a
+        # name must never be generated again.
+        in_use = [basic_block.name]
+        if isinstance(basic_block, SyntheticBranch):
+            in_use.append(basic_block.variable)
+        elif isinstance(basic_block, SyntheticAssignment):
+            in_use.extend(basic_block.variable_assignment.keys())
+        self.name_gen.reserve(in_use)
         self.graph[basic_block.name] = basic_block
 
     def remove_blocks(self, names: Set[str]) -> None:
